@@ -73,7 +73,26 @@ func (r *Run) anchors(when string) (vs []*Violation) {
 	if alpha.ScalarVal(alpha.ScalarLimbs(s)).Sign() != 0 {
 		vs = append(vs, r.viol("C19", "constructor-anchor", "NewScalar", "NewScalar no longer returns zero "+when))
 	}
+	// The harness is a caller like any other: what a constructor handed to it is
+	// its own, and it overwrites it after use (with another valid value, written
+	// straight into memory). A constructor that handed out package state - on
+	// its first call in the process only, say - fails its next anchor.
+	if len(vs) == 0 {
+		junk := alpha.PointLimbs(g)
+		junk.X, junk.T = negLimbs(junk.X), negLimbs(junk.T) // -B, a valid point
+		setPointRaw(id, junk)
+		setPointRaw(g, alpha.PointRaw{X: alpha.Limbs{}, Y: alpha.Limbs{1}, Z: alpha.Limbs{1}, T: alpha.Limbs{}})
+		setScalarRaw(s, alpha.MontgomeryOf(big.NewInt(12345)))
+		r.Stats.Inc("fault/scribble/anchor-values")
+	}
 	return vs
+}
+
+// negLimbs returns limbs of -v mod p, each limb below 2^51.
+func negLimbs(l alpha.Limbs) alpha.Limbs {
+	v := alpha.ElemVal(l)
+	v.Neg(v).Mod(v, alpha.P)
+	return alpha.LimbsOf(v)
 }
 
 func (r *Run) scribble(c *Call) []*Violation {
